@@ -52,6 +52,10 @@ USERS = [
     ("sum_fun_tuple", "foo(X) :- X = #sum {{ S,f(V) : {H} }}.", 2),
     ("weak_arith_tuple", ":~ {H}. [S@1,V/3]", 2),
     ("weak_zero_tuple", ":~ {H}. [S@1,V*0]", 2),
+    ("twice_same_stmt", "foo(V) :- {H}, S = #max {{ T,W : h(W,T) }}.", 2),
+    ("twice_same_agg", "foo(X) :- X = #sum {{ S,V : {H} ; S,V,b : {H}, t(S) }}.", 2),
+    ("twice_body", "foo(V,W) :- {H}, h(W,S), V < W.", 2),
+    ("twice_weak", ":~ {H}, h(W,S), V < W. [S@1,V,W]", 2),
     ("anon", "foo :- {HA}, S > 1.", 2),
     ("two_uses", "foo(X) :- X = #sum {{ S,V : {H} }}. bar(V) :- {H}, S > 2.", 2),
     ("plain_body", "foo(V,S) :- {H}.", 2),
